@@ -62,7 +62,7 @@ def gen_export(rng):
     sessions = []
     for s in range(ns):
         all_c = rng.sample([11, 12, 13, 14], rng.randint(0, 4))
-        tab, batch, recid = rng.randint(1, 99), rng.randint(1, 20), rng.choice((rng.randint(1, 500), rng.randint(1, 500), 0))   # (record numbers start wherever the vendor starts them)
+        tab, batch, recid = rng.choice((rng.randint(1, 99), rng.randint(1, 99), 100001, 123456)), rng.randint(1, 20), rng.choice((rng.randint(1, 500), rng.randint(1, 500), 0))   # (record numbers start wherever the vendor starts them)
         sess = {"TabulatorId": tab, "BatchId": batch, "RecordId": recid, "CountingGroupId": rng.choice((1, 2)),
                 "ImageMask": rng.choice(("D:\\\\NAS\\\\Images\\\\", "D:\\\\NAS\\\\2024_11_05 GENERAL\\\\Results\\\\Images\\\\",
                                          "E:\\\\3_4_5\\\\Tabulator00007\\\\Batch003\\\\Images\\\\", ""))
